@@ -135,5 +135,7 @@ def cp_setup(sc):
 
 FUNCS = {
     'cpl': {'setup': cpl_setup, 'scenarios': CPL_SCENARIOS,
-            'on_outcomes': cpl_on_outcomes, 'config': {'unroll': 4}},
+            'on_outcomes': cpl_on_outcomes,
+            'config': {'unroll': 4, 'watch_assign': {
+                'relgap': cs.relgap_assigned}}},
 }
